@@ -9,6 +9,6 @@ mod c24;
 #[cfg(kani)]
 mod c22;
 #[cfg(kani)]
-mod c21;
+mod c21h;
 #[cfg(kani)]
 mod c09;
